@@ -49,7 +49,7 @@ type item struct {
 
 type node struct {
 	Kind  string `json:"kind"` // call | callcode | delegate | static | create | create2
-	End   string `json:"end"`  // ok | revert | fault | codestore
+	End   string `json:"end"`  // ok | revert | fault | codestore | write
 	Items []item `json:"items"`
 	id    int    // deployed contract id (call kinds)
 	fault int
@@ -186,6 +186,14 @@ func (c *compiler) body(n *node, isCreate bool) []byte {
 		}
 	case "revert":
 		a.Op(eu.PUSH0, eu.PUSH0, eu.REVERT)
+	case "write":
+		// the model's frame ended at a state-modifying instruction refused in static context; should the
+		// real interpreter let it through, the frame ends normally and the modification is kept
+		if isCreate {
+			a.PushInt(1).Op(eu.PUSH0, eu.RETURN)
+		} else {
+			a.Op(eu.STOP)
+		}
 	case "codestore":
 		if isCreate {
 			a.PushInt(20000).Op(eu.PUSH0, eu.RETURN) // 20000 bytes of code: the deposit (200 gas per byte) cannot be paid
@@ -324,9 +332,9 @@ func (o *observer) StepCharged(s *vm.VerifStep) {
 	if callOps[op] {
 		delete(o.exited, s.Depth+1)
 		o.tr.Emit(map[string]interface{}{"event": "Before", "depth": s.Depth, "op": int(op), "self": o.w.id(s.Address),
-			"ro": s.ReadOnly, "state": o.w.state(), "logs": o.w.logIDs(o.w.st.GetLogs(curTx))})
+			"ro": o.InStatic(), "state": o.w.state(), "logs": o.w.logIDs(o.w.st.GetLogs(curTx))})
 	}
-	if s.ReadOnly && (writeOps[op] || (op == eu.CALL && len(s.Stack) >= 3 && !s.Stack[len(s.Stack)-3].IsZero())) {
+	if o.InStatic() && (writeOps[op] || (op == eu.CALL && len(s.Stack) >= 3 && !s.Stack[len(s.Stack)-3].IsZero())) {
 		// the interpreter let a state-modifying instruction through in static context (TSTORE is refused inside execute)
 		if op != eu.TSTORE {
 			o.tr.Emit(map[string]interface{}{"event": "StaticWrite", "depth": s.Depth, "op": int(op), "stage": "charged"})
@@ -337,7 +345,7 @@ func (o *observer) StepCharged(s *vm.VerifStep) {
 func (o *observer) StepDone(s *vm.VerifStep, res []byte, err error) {
 	o.Recorder.StepDone(s, res, err)
 	op := byte(s.Op)
-	if err == nil && s.ReadOnly && writeOps[op] {
+	if err == nil && o.InStatic() && writeOps[op] {
 		o.tr.Emit(map[string]interface{}{"event": "StaticWrite", "depth": s.Depth, "op": int(op), "stage": "done"})
 	}
 	if err == nil && op >= 0xa0 && op <= 0xa4 {
@@ -432,7 +440,7 @@ func main() {
 				StepFilter: func(int, byte) bool { return false }})
 			obs := &observer{Recorder: rec, w: w, tr: tr, lastExit: map[int]string{}, exited: map[int]bool{}, stats: stats}
 			rec.Opt.EnterExtra = func(f *vm.VerifFrame) map[string]interface{} {
-				if f.ReadOnly {
+				if rec.InStatic() {
 					return map[string]interface{}{"state": w.state(), "logs": w.logIDs(st.GetLogs(curTx))}
 				}
 				return nil
@@ -440,7 +448,7 @@ func main() {
 			rec.Opt.ExitExtra = func(f *vm.VerifFrame, err error, logs []*types.Log) map[string]interface{} {
 				obs.lastExit[f.Depth] = eu.ErrClass(err)
 				obs.exited[f.Depth] = true
-				if f.ReadOnly {
+				if rec.InStatic() {
 					return map[string]interface{}{"state": w.state(), "logs": w.logIDs(st.GetLogs(curTx))}
 				}
 				return nil
@@ -522,6 +530,11 @@ func randomNode(r *rand.Rand, depth int, budget *int, static bool) *node {
 					ch.End = "codestore"
 				}
 				n.Items = append(n.Items, item{Node: ch, V: r.Intn(2)})
+				if static && k == "static" && r.Intn(2) == 0 {
+					// a nested static call has returned: the enclosing static frame must still refuse to write
+					muts := []string{"sstore", "tstore", "log", "transfer", "destroy"}
+					n.Items = append(n.Items, item{Mut: muts[r.Intn(len(muts))], A: r.Intn(3), V: r.Intn(3)})
+				}
 			}
 		}
 	}
